@@ -284,7 +284,7 @@ ROLE_DOC = "(S finish ok+handoff, B blocked by predecessor, U retry, K error bar
 
 
 def specs(tier):
-    out = [Spec("completion_n3", build_completion(3), cfg=cfg(3), unwind=14, timeout=1200,
+    out = [Spec("completion_n3", build_completion(3), cfg=cfg(3), unwind=14, timeout=3600,
                 desc="sequential: from an arbitrary INV state (nothing executing) repeated next()/remove()/commit() finishes the block",
                 bounds={"n": 3, "threads": 1, "rounds": 11})]
     for p in SINGLES:
@@ -292,7 +292,7 @@ def specs(tier):
                         desc=f"one role alone from an arbitrary INV state: {p} " + ROLE_DOC,
                         bounds={"n": 3, "threads": 1}))
     for p in QUICK_PAIRS:
-        out.append(Spec(f"step_{p}_n3", build_pair(3, list(p)), cfg=cfg(3), unwind=6, timeout=1200,
+        out.append(Spec(f"step_{p}_n3", build_pair(3, list(p)), cfg=cfg(3), unwind=6, timeout=3600,
                         desc=f"one concurrent step from an arbitrary INV state: roles {' || '.join(p)} " + ROLE_DOC,
                         bounds={"n": 3, "threads": len(p), "memory_model": "SC"}))
     if tier == "thorough":
